@@ -916,10 +916,13 @@ class CSSStyleSheet(cssutils.stylesheets.StyleSheet):
                 self._cssRules.insert(index, rule)
 
         # post settings
-        if not inserted:
+        if not inserted or not any(r is rule for r in self._cssRules):
+            # e.g. a @namespace rule which did not replace anything
             return index
         moved = rule._parentStyleSheet is not self
         rule._parentStyleSheet = self
+        # a rule of the sheet itself is not nested (anymore)
+        rule._parentRule = rule._parent = None
 
         if rule.IMPORT_RULE == rule.type and not rule.hrefFound and moved:
             # try loading the imported sheet which has new relative href now
